@@ -417,6 +417,23 @@ def fmt_cases(seed, tier, consts):
                 cs.append(c)
     return cs
 
+def fmt_read_cases(seed, tier, consts):
+    """%.Ns with an argument of exactly N characters and no terminator (C 7.21.6.1: with a precision the array need not contain
+    a null character), flush against the inaccessible page: the engine may read N characters and no more"""
+    import props
+    rng = random.Random(seed * 31 + 3); cs = []; i = 0
+    for N in (1, 2, 3, 8, 17):
+        for fmt in (b'%%.%ds' % N, b'[%%.%ds]' % N, b'%%-%d.%ds|' % (N + 3, N), b'%%.*s'):
+            for func in ('x:sprintf_s', 'x:snprintf_s', 'x:vsprintf_s', 'x:vsnprintf_s'):
+                i += 1; dmax = N + 12
+                arg = bytes(rng.choice([0x61, 0x62, 0x7a]) for _ in range(N))
+                blocks = [('R', fam_copy.garbage(rng, dmax)), ('R', fmt + b'\0'), ('R', arg)]
+                cargs = ([N] if b'*' in fmt else []) + [(2, 0)]
+                c = vlib.Case('r%d' % i, func, blocks, [(0, 0), dmax, UNK, (1, 0), 'V'] + cargs,
+                              dict(cls='sweep-fmt-read', func=func, fmt=fmt.decode(), N=N, noop=False, gd=gd(0, 0, dmax, 1, producer=True, slack=True, fail='neg', copylike=True)))
+                cs.append(c)
+    return cs
+
 def wfmt_cases(seed, tier, consts):
     """wide formatted output into a buffer (swprintf_s, snwprintf_s, vswprintf_s, vsnwprintf_s): every length relation between
     the text and dmax, an argument that the C library cannot convert after some text was produced (locale C.UTF-8),
